@@ -13,6 +13,8 @@ MAXV = 400        # violation records kept per shard
 MAXOUT = 20000    # distinct outcomes kept
 
 inf = float('inf')
+_CRUMB_FD = None
+HANG_S = float(os.environ.get('VERIF_HANG_S', '90'))
 
 
 def jsonable(x):
@@ -76,6 +78,8 @@ class Acc:
 
     def case(self, sub=None, nontrivial=False):
         self.states += 1
+        if _CRUMB_FD is not None and (self.states & 127) == 0:
+            os.pwrite(_CRUMB_FD, b'.', 9000)     # heartbeat for the hang watchdog
         if nontrivial:
             self.nontrivial += 1
         if sub is not None:
@@ -146,9 +150,6 @@ class Acc:
                 self.extra[k] = v
 
 
-_CRUMB_FD = None
-
-
 def crumb(case):
     """Record the case about to be executed, so that a crash of the worker (native fault) can be attributed."""
     if _CRUMB_FD is not None:
@@ -167,7 +168,23 @@ def _child(fn, my_shards, nshards, extra, wfd, crumb_path):
         os.pwrite(_CRUMB_FD, (0).to_bytes(4, 'little'), 0)
         try:
             fn(acc, sh, nshards, *extra)
-        except BaseException as e:  # a python-level failure of the harness is an infrastructure error, never silent
+        except Exception as e:  # noqa: BLE001
+            # The judging code met an implementation result it cannot even inspect (silent on the unchanged tree by
+            # construction: the checks are deterministic). That is an observed outcome, reported with the announced case.
+            case = None
+            try:
+                raw = os.pread(_CRUMB_FD, 8200, 0)
+                n = int.from_bytes(raw[:4], 'little')
+                if n:
+                    case = json.loads(raw[4:4 + n].decode())
+            except (OSError, ValueError):
+                pass
+            acc.states = max(acc.states, 1)
+            acc.violation('unusable_result', 'judge', 'harness', {'exception': type(e).__name__},
+                          case if case is not None else {'shard': sh, 'note': 'no breadcrumb'}, 'a result the check can inspect',
+                          '%s: %s | %s' % (type(e).__name__, e, traceback.format_exc()[-1500:]))
+            acc.cap('shards_abandoned_after_unusable_result')
+        except BaseException as e:  # a failure of the harness itself is an infrastructure error, never silent
             acc.extra['harness_error'] = '%s: %s\n%s' % (type(e).__name__, e, traceback.format_exc()[-3000:])
         b = pickle.dumps((sh, acc))
         out.write(len(b).to_bytes(8, 'little'))
@@ -216,13 +233,34 @@ def run_sharded(fn, nshards=None, extra=(), workers=None, crash_tags=None):
             finally:
                 os._exit(3)
         os.close(wfd)
-        live[rfd] = {'pid': pid, 'w': w, 'buf': b'', 'crumb': cp}
+        live[rfd] = {'pid': pid, 'w': w, 'buf': b'', 'crumb': cp, 'act': time.time(), 'mt': 0}
 
     for w in range(workers):
         spawn(w)
     crashes = 0
     while live:
         ready, _, _ = select.select(list(live), [], [], 5.0)
+        now = time.time()
+        for rfd in list(live):
+            st = live[rfd]
+            if rfd in ready:
+                st['act'] = now
+                continue
+            try:
+                mt = os.path.getmtime(st['crumb'])
+            except OSError:
+                mt = 0
+            if mt > st.get('mt', 0):
+                st['mt'] = mt
+                st['act'] = now
+            if now - st.get('act', now) > HANG_S:
+                # no result, no breadcrumb, no heartbeat for HANG_S seconds: the case does not terminate
+                st['hang'] = True
+                try:
+                    os.kill(st['pid'], 9)
+                except OSError:
+                    pass
+                st['act'] = now
         for rfd in ready:
             st = live[rfd]
             data = os.read(rfd, 1 << 20)
@@ -257,9 +295,14 @@ def run_sharded(fn, nshards=None, extra=(), workers=None, crash_tags=None):
                 sig = os.WTERMSIG(status) if os.WIFSIGNALED(status) else None
                 a = Acc()
                 a.states = 1
-                a.violation('crash', 'worker', 'native', dict(crash_tags or {}, signal=sig, exit=os.WEXITSTATUS(status) if os.WIFEXITED(status) else None),
-                            case if case is not None else {'shard': sh, 'note': 'no breadcrumb'}, 'no crash',
-                            'worker process died (signal %s) while executing this case; rest of shard %d abandoned' % (sig, sh))
+                if st.get('hang'):
+                    a.violation('hang', 'worker', 'harness', dict(crash_tags or {}, kind='no progress for %ds' % HANG_S),
+                                case if case is not None else {'shard': sh, 'note': 'no breadcrumb'}, 'termination',
+                                'the case did not terminate within %d s (worker killed); rest of shard %d abandoned' % (HANG_S, sh))
+                else:
+                    a.violation('crash', 'worker', 'native', dict(crash_tags or {}, signal=sig, exit=os.WEXITSTATUS(status) if os.WIFEXITED(status) else None),
+                                case if case is not None else {'shard': sh, 'note': 'no breadcrumb'}, 'no crash',
+                                'worker process died (signal %s) while executing this case; rest of shard %d abandoned' % (sig, sh))
                 a.cap('shards_abandoned_after_crash')
                 total.merge(a)
                 if crashes <= 64:
